@@ -75,6 +75,25 @@ def transfer_records(comm):
     weights = S.array("weights", (2 * w,) * dim + (N,))
     nearest = S.array("nearest", (dim, N), DType("int64"))
     out = {"eul": eul, "lag": lag, "weights": weights, "nearest": nearest}
+    # the property's markers are those whose support window lies inside the grid: w - 1 <= nearest[d, .] <= n_d - 1 - w.  A guard
+    # of the analysed code that only fires outside this range is decided here; one that can fire inside it is analysed both ways
+    import re
+    sizes = ["nx", "ny", "nz"]
+
+    def bounds(name, w=w):
+        m = re.match(r"nearest\[(\d+),", name)
+        if m is None:
+            return None
+        return const(w - 1), sym(sizes[int(m.group(1))]) - const(1 + w)
+    S.I.elem_bounds = bounds
+    try:
+        return _transfer_records(comm, out, eul, lag, weights, nearest)
+    finally:
+        S.I.elem_bounds = None
+
+
+def _transfer_records(comm, out, eul, lag, weights, nearest):
+    S, dim, nc = comm.S, comm.dim, comm.ncomp
     tr = comm.run("eulerian_to_lagrangian_grid_interpolation_kernel", lag_grid_field=lag, eul_grid_field=eul, interp_weights=weights,
                   nearest_eul_grid_index_to_lag_grid=nearest)
     out["gather_loop"] = [op for op in tr if op.kind == "LoopBegin"]
